@@ -312,25 +312,30 @@ class Sequence(Container, list):
         wrapped in a new element of that type before inserting.
 
         """
+        # a rejected call must not adopt the member: check the index first
+        index = operator.index(index)
         if not isinstance(value, Element):
             value = self.member_schema(value=value)
         value.parent = self
         list.insert(self, index, value)
 
     def __setitem__(self, index, value):
+        # a rejected call must not adopt the members: members are given their
+        # parent only once the list has accepted the assignment
         if isinstance(index, slice):
             as_elements = []
             for item in value:
                 if not isinstance(item, Element):
                     item = self.member_schema(value=item)
-                item.parent = self
                 as_elements.append(item)
-            value = as_elements
+            list.__setitem__(self, index, as_elements)
+            for item in as_elements:
+                item.parent = self
         else:
             if not isinstance(value, Element):
                 value = self.member_schema(value=value)
+            list.__setitem__(self, index, value)
             value.parent = self
-        list.__setitem__(self, index, value)
 
     def __setslice__(self, i, j, value):
         self.__setitem__(slice(i, j), value)
@@ -506,8 +511,20 @@ class List(Sequence):
 
     def __setitem__(self, index, value):
         if isinstance(index, slice):
-            value = [self._new_slot(item) for item in value]
-            list.__setitem__(self, index, value)
+            # a rejected call must not adopt the members: every item is
+            # adapted, and the size of an extended slice checked, before the
+            # first item is wrapped in a slot
+            items = [self._as_element(item) for item in value]
+            if index.step is not None and operator.index(index.step) != 1:
+                selected = len(range(*index.indices(len(self))))
+                if len(items) != selected:
+                    raise ValueError(
+                        "attempt to assign sequence of size %d to extended "
+                        "slice of size %d" % (len(items), selected)
+                    )
+            else:
+                index.indices(len(self))
+            list.__setitem__(self, index, [self._new_slot(item) for item in items])
             self._renumber()
         elif isinstance(value, Element):
             slot = list.__getitem__(self, index)
@@ -539,6 +556,8 @@ class List(Sequence):
         return value
 
     def insert(self, index, value):
+        # a rejected call must not adopt the member: check the index first
+        index = operator.index(index)
         list.insert(self, index, self._new_slot(value))
         self._renumber()
 
